@@ -422,7 +422,7 @@ ALT = {
         "placed_workplace_id_record": lambda m: [None, "WP1"],
     },
     "BaseWorker": {
-        "name": None, "ID": None, "team_id": lambda m: "TM1", "main_workplace_id": lambda m: "WP0", "cost_per_time": lambda m: 4.5, "solo_working": lambda m: True,
+        "name": None, "ID": None, "team_id": lambda m: "TM1", "main_workplace_id": [lambda m: "WP0", lambda m: "yard-of-another-project"], "cost_per_time": lambda m: 4.5, "solo_working": lambda m: True,
         "workamount_skill_mean_map": lambda m: {"T0": 0.0, "T1": 2.0}, "workamount_skill_sd_map": lambda m: {"T0": 0.25}, "facility_skill_map": lambda m: {"F1": 0.5},
         "absence_time_list": lambda m: [0, 2], "state": lambda m: BaseWorkerState.ABSENCE, "state_record_list": lambda m: [BaseWorkerState.FREE, BaseWorkerState.ABSENCE],
         "cost_list": lambda m: [0.0, 4.5], "assigned_task_list": lambda m: [m.byname["T1"]], "assigned_task_id_record": lambda m: [[], ["T1"]],
